@@ -210,7 +210,25 @@ def mode_rules(facts, rep):
                 bad += 1        # the recorded mode is not even consulted after writing a file
         ok &= rep.check(nfile >= 1 and bad == 0, rule, "file-gets-mode", where(f, f.span), "after a file's content is written, unix_mode() is consulted and Some(mode) => set_permissions",
                         "%d of %d file-extracting paths do not apply the entry's recorded Unix mode with set_permissions after writing" % (bad, nfile))
-    rep.floor(rule, 2)
+    # the streaming extractor applies modes in its second phase (central directory): every entry whose metadata is delivered has its
+    # recorded mode consulted, and Some(mode) => set_permissions -- whatever was or was not created in the first phase (a directory
+    # that existed before its own entry was visited still gets its recorded mode)
+    vm = [f for f in facts.fns if re.search(r"ZipStreamVisitor>::visit_additional_metadata$", f.path) and EXTRACTORS.search(f.path)]
+    if vm:
+        f = vm[0]
+        ps = paths(f, max_loop=1)
+        bad = nok = 0
+        for p in ps:
+            if outcome(p)[0] != "Ok":
+                continue
+            nok += 1
+            has_mode = [v for (a, v) in p["decisions"] if a != "#iter" and re.search(r"^discr\(.*unix_mode\(", a)]
+            sp = [e_ for e_ in p["effects"] if re.search(r"^std::fs::set_permissions$", e_[1])]
+            if not has_mode or (has_mode == [1] and len(sp) != 1) or (has_mode == [0] and sp):
+                bad += 1
+        ok &= rep.check(nok >= 1 and bad == 0, rule, "metadata-gets-mode", where(f, f.span), "every delivered metadata record: unix_mode() consulted, Some(mode) => set_permissions",
+                        "%d of %d successful paths of the streaming extractor's metadata phase do not apply the recorded Unix mode" % (bad, nok))
+    rep.floor(rule, 3)
     return ok
 
 
